@@ -70,7 +70,8 @@ def parse_line(l):
 class Scenario:
     """Seeded scheduler over logical threads; decisions depend only on the implementation's replies."""
 
-    def __init__(self, rng, nobj, nprod, ncons, steps, nb_ok, shut):
+    def __init__(self, rng, nobj, nprod, ncons, steps, nb_ok, shut, stale=False):
+        self.stale = stale
         self.rng = rng; self.nobj = nobj; self.nprod = nprod; self.ncons = ncons
         self.steps = steps; self.nb_ok = nb_ok; self.shut = shut
         self.script = []
@@ -97,7 +98,7 @@ class Scenario:
         # thread program counters
         prod = [dict(pc='idle', obj=None) for _ in range(self.nprod)]
         cons = [dict(pc='idle', obj=None, nb=False, done=False) for _ in range(self.ncons)]
-        posted_order = []; popped_by_single = []
+        posted_order = []; popped_by_single = []; returned = set()
 
         def check_state(st, where):
             # conservation: every object exactly once among queues, fifos and holders
@@ -161,6 +162,20 @@ class Scenario:
                 if v:
                     return dict(viol=v, diff=diff)
                 continue
+            # surplus release: an object that went back to its pool by its last release is released once more before it is handed out
+            # again (a stage releasing without a matching inc_live_count). The released-marker makes this a no-op; the pool predicates of
+            # check_state (conservation: no object twice) are evaluated on the real structure afterwards.
+            if self.stale and returned and rng.random() < 0.06:
+                cand = sorted(o for o in returned if holder[o] is None)
+                if cand:
+                    o = rng.choice(cand)
+                    st, raw = do('REL %d' % o)
+                    if st is None:
+                        return dict(viol=dict(kind='crash', what='crash in a surplus svt_release_object'), diff=diff)
+                    v = check_state(st, 'after surplus release of pooled object %d (step %d)' % (o, len(self.script) - 1))
+                    if v:
+                        v['kind'] = 'duplicate_after_surplus_release' if v['kind'] == 'conservation' else v['kind']
+                        return dict(viol=v, diff=diff)
             # choose a thread that can take a step
             cands = [('p', i) for i in range(self.nprod)] + [('c', i) for i in range(self.ncons) if not cons[i]['done']]
             rng.shuffle(cands)
@@ -182,7 +197,7 @@ class Scenario:
                             o = int(m.group(1)) if m else -1
                             if o < 0 or holder.get(o) is not None:
                                 return dict(viol=dict(kind='double_handout', what='get_empty returned object %d whose state is %s' % (o, holder.get(o))), diff=diff)
-                            holder[o] = ('p', i); need[o] = 1; enabled[o] = True; t['obj'] = o; t['pc'] = 'have'; st = st2
+                            holder[o] = ('p', i); returned.discard(o); need[o] = 1; enabled[o] = True; t['obj'] = o; t['pc'] = 'have'; st = st2
                         else:
                             st, raw = do('RPE %d' % i); t['pc'] = 'wait'
                     elif t['pc'] == 'wait':
@@ -204,7 +219,7 @@ class Scenario:
                         o = int(m.group(1))
                         if o < 0 or holder.get(o) is not None:
                             return dict(viol=dict(kind='double_handout', what='get_empty returned object %d whose state is %s' % (o, holder.get(o))), diff=diff)
-                        holder[o] = ('p', i); need[o] = 1; enabled[o] = True; t['obj'] = o; t['pc'] = 'have'; st = st2
+                        holder[o] = ('p', i); returned.discard(o); need[o] = 1; enabled[o] = True; t['obj'] = o; t['pc'] = 'have'; st = st2
                     elif t['pc'] == 'have':
                         o = t['obj']; r = rng.random()
                         if r < 0.2:
@@ -225,7 +240,7 @@ class Scenario:
                                 st, raw = do('REL %d' % o)
                                 need[o] -= 1
                                 if need[o] <= 0:
-                                    holder[o] = None; t['pc'] = 'idle'; t['obj'] = None
+                                    holder[o] = None; t['pc'] = 'idle'; t['obj'] = None; returned.add(o)
                     progressed = True
                 else:
                     t = cons[i]
@@ -284,7 +299,7 @@ class Scenario:
                         else:
                             st, raw = do('REL %d' % o); need[o] -= 1
                             if need[o] <= 0:
-                                holder[o] = None; t['pc'] = 'idle'; t['obj'] = None
+                                holder[o] = None; t['pc'] = 'idle'; t['obj'] = None; returned.add(o)
                     progressed = True
                 if st is None:
                     return dict(viol=dict(kind='crash', what='implementation crashed at: ' + self.script[-1]), diff=diff)
@@ -317,7 +332,7 @@ def run(ck):
         ck.cov['critical_section_skeletons'] = {f['name']: f['touches'] for f in gm['functions']}
     except Exception as e:
         ck.obligation('translate(critical sections of EbSystemResourceManager.c -> gen/GuardGen.v)', False, repr(e)[:400])
-    ck.prove('Properties_C23', extra_modules=['SRM', 'SRMorder', 'SRMring', 'Proofs_C23', 'RingRefine', 'GuardFlow'], gen_modules=['GuardGen'])
+    ck.prove('Properties_C23', extra_modules=['SRM', 'SRMorder', 'SRMring', 'Proofs_C23', 'RingRefine', 'SRMrelease', 'GuardFlow'], gen_modules=['GuardGen'])
     hd = os.path.join(CACHE, 'h', 'c23'); os.makedirs(hd, exist_ok=True)
     hbin = os.path.join(hd, 'srm_h')
     ok, log = build.cc(hbin, [os.path.join(VERIF, 'harness/unit/srm_harness.c')] + [os.path.join(REPO, s) for s in SRC], flags='-DNDEBUG -w')
@@ -336,9 +351,10 @@ def run(ck):
         rng = random.Random(ck.seed * 1000003 + k)
         nobj = rng.choice([1, 1, 2, 2, 3, 4, 6]); nprod = rng.choice([1, 1, 2, 3]); ncons = rng.choice([0, 1, 1, 2, 3, 4])
         nb_ok = (ncons == 1) and rng.random() < 0.5
-        sc = Scenario(rng, nobj, nprod, ncons, rng.choice([20, 60, 150]), nb_ok, rng.random() < 0.4)
+        sc = Scenario(rng, nobj, nprod, ncons, rng.choice([20, 60, 150]), nb_ok, rng.random() < 0.4, stale=(k % 4 == 3))
         r = sc.run(impl, model)
         dist['scenarios'] += 1; dist['steps'] += len(sc.script)
+        dist['scenarios_with_surplus_releases'] = dist.get('scenarios_with_surplus_releases', 0) + (1 if k % 4 == 3 else 0)
         dist['non_blocking_polls_outside_refinement_side_condition'] = dist.get('non_blocking_polls_outside_refinement_side_condition', 0) + (1 if nb_ok else 0)
         key = '%d/%d/%d' % (nobj, nprod, ncons); dist['by_shape'][key] = dist['by_shape'].get(key, 0) + 1
         for l in sc.script:
